@@ -208,12 +208,17 @@ pub fn gen_registry_world(tape: &mut Tape, cfg: &RegGenCfg) -> World {
           1 => {
             let other = *tape.pick(Stream::World, &PKG_NAMES);
             let req = *tape.pick(Stream::World, &REQ_POOL);
+            // (static or dynamic: several packages importing the same
+            // specifier dynamically share one parked dynamic branch)
             u.items.push(Item::new(
-              Form::Named,
+              *tape.pick(Stream::World, &[Form::Named, Form::Dynamic]),
               format!("jsr:{}{}", other, req),
             ));
           }
-          2 => u.items.push(Item::new(Form::Default, "npm:chalk@5")),
+          2 => u.items.push(Item::new(
+            *tape.pick(Stream::World, &[Form::Default, Form::Dynamic]),
+            "npm:chalk@5",
+          )),
           3 => {
             // https URL into the registry: own package, this version or
             // another one (which may or may not be published; a version
@@ -333,7 +338,10 @@ pub fn gen_registry_world(tape: &mut Tape, cfg: &RegGenCfg) -> World {
           .push(Item::new(Form::Named, format!("jsr:{}{}", other, req)));
       }
       if tape.draw(Stream::World, 6) == 5 {
-        modd.items.push(Item::new(Form::Default, "npm:chalk@5"));
+        modd.items.push(Item::new(
+          *tape.pick(Stream::World, &[Form::Default, Form::Dynamic, Form::Dynamic]),
+          "npm:chalk@5",
+        ));
       }
       if tape.draw(Stream::World, 8) == 7 {
         modd.items.push(Item::new(Form::SideEffect, "./gone.ts"));
